@@ -391,6 +391,9 @@ fn idx_digest(text: &[u8]) -> String {
             index.is_seq_item(text, p) as u8
         );
     }
+    for t in 0..=index.ty_len() {
+        let _ = write!(s, "{}", index.is_sequence_at(t) as u8);
+    }
     sections.push(("cont", s));
     // interest-bit rank/select and text -> bp lookup
     let mut s = String::new();
@@ -401,8 +404,16 @@ fn idx_digest(text: &[u8]) -> String {
         pos += step;
     }
     let ones = index.ib_rank1(text.len());
+    let nw = index.ib().len();
     for k in 0..=ones + 1 {
-        let _ = write!(s, "s{};", opt(index.ib_select1(k)));
+        let _ = write!(
+            s,
+            "s{},{},{},{};",
+            opt(index.ib_select1(k)),
+            opt(index.ib_select1_from(k, 0)),
+            opt(index.ib_select1_from(k, (k * 7) % (nw + 1))),
+            opt(index.ib_select1_from(k, nw))
+        );
     }
     sections.push(("rank", s));
     // anchors / aliases / tags / comments
@@ -425,6 +436,7 @@ fn idx_digest(text: &[u8]) -> String {
             index.get_tag(p),
             index.get_line_comment(p)
         );
+        let _ = write!(s, "r{:?}c{};", index.resolve_alias(p, text).map(|c| c.bp_position()), index.cursor_at(p, text).bp_position());
     }
     names.sort();
     names.dedup();
@@ -637,7 +649,8 @@ fn gen_kernels(tier: Tier, r: &mut Rng, emit: &mut dyn FnMut(String)) {
     }
     // --- find_newline / count_leading_spaces: position of first LF / first non-space at every offset
     for off in 0..=max_off + 30 {
-        for tail in [0usize, 1, 7, 15, 16, 17, 31, 32, 33] {
+        let tails: &[usize] = if quick { &[0, 1, 15, 16, 17, 33] } else { &[0, 1, 7, 15, 16, 17, 31, 32, 33] };
+        for &tail in tails {
             let len = off + tail;
             // newline
             let mut buf: Vec<u8> = (0..len).map(|_| filler(r, b"\n")).collect();
@@ -672,7 +685,7 @@ fn gen_kernels(tier: Tier, r: &mut Rng, emit: &mut dyn FnMut(String)) {
             let mut start = 0;
             while start <= len + 1 {
                 emit(format!("C16 ls {} {start}", hex_bytes(&sp)));
-                start += if start < 34 || start + 2 >= off { 1 } else { stride + 4 };
+                start += if (!quick && start < 34) || start < 2 || start + 2 >= off { 1 } else { stride + 4 };
                 if start > off + 2 && start < len {
                     start = len;
                 }
